@@ -127,6 +127,9 @@ func idxAlphabet(extra bool) (calls []e1.Call, ids [][]interface{}) {
 	uniq(bD("a", int32(1)), idxOpt{unique: true, partial: bD("b", bD("$gt", int32(0))), name: "part"})
 	add(cDropIndex("d", "c", "a_1"))
 	add(cDropIndex("d", "c", "*"))
+	if !extra {
+		add(cDropIndexWithKey("d", "c", bD("_id", int32(1)))) // (part of the extra calls of C15 otherwise)
+	}
 	add(cReload())
 	if extra {
 		// C15: index-management corner cases
@@ -140,6 +143,19 @@ func idxAlphabet(extra bool) (calls []e1.Call, ids [][]interface{}) {
 		add(cCreateIndex("d", "c", bD("t", int32(1)), idxOpt{expire: i32(3600)}))
 		add(cDropIndex("d", "c", "_id_"))
 		add(cDropIndex("d", "c", "nope"))
+		// the engine-level API: an index build that may be rejected, followed by a write in the same transaction and a commit
+		add(e1.Call{Name: "engine.txn{CreateIndex({a:1} unique, name \"eng\"); Insert({_id:90,a:1}); Commit}", Do: func(w *world.World) string {
+			txn, err := w.Engine.Begin(w.Ctx, true)
+			if err != nil {
+				return "err"
+			}
+			defer w.Engine.Abort(txn)
+			key := bD("a", int32(1))
+			_, e1 := txn.CreateIndex(lungo.Handle{"d", "c"}, "eng", mongokit.IndexConfig{Key: &key, Unique: true})
+			doc := bD("_id", int32(90), "a", int32(1))
+			_, e2 := txn.Insert(lungo.Handle{"d", "c"}, []*bson.D{&doc}, true)
+			return world.ErrClass(e1) + "," + world.ErrClass(e2) + "," + world.ErrClass(w.Engine.Commit(txn))
+		}})
 		add(cDropIndexWithKey("d", "c", bD("a", int32(1))))
 		add(cDropIndexWithKey("d", "c", bD("_id", int32(1))))
 		add(cUpdate("d", "c", true, bD(), bD("$inc", bD("a", int32(1))), false)) // fails on strings / arrays at the k-th document
@@ -238,13 +254,22 @@ func init() {
 				return false, "no two documents share a key under the requested definition"
 			}
 			// (b) _id: the state before holds a document with a BSON-equal _id to one the call inserts
+			idExists := false
 			{
 				w := w0()
 				before := docsOf(w)
 				w.Close()
+				// (an upserting update/replace names its _id in the filter: when that document exists it is modified, nothing
+				// is inserted, and its _id cannot be the cause)
+				kind := callKind(calls[ci].Name)
+				upsertKind := kind == "UpdateOne" || kind == "ReplaceOne" || kind == "UpdateMany"
 				for i, id := range ids[ci] {
 					for _, d := range before {
 						if refmodel.Cmp(refmodel.GetPath(d, "_id"), id) == 0 {
+							if upsertKind {
+								idExists = true
+								continue
+							}
 							return true, ""
 						}
 					}
@@ -264,6 +289,9 @@ func init() {
 				return true, ""
 			}
 			obs := calls[ci].Do(w)
+			if obs == "dup" && idExists {
+				return false, "the document named by the filter exists (nothing is inserted) and, with the uniqueness flags of the secondary indexes removed, only _id_ is left to object"
+			}
 			if !strings.HasPrefix(obs, "ok") {
 				return true, "" // undecidable by this oracle (the relaxed call fails for another reason)
 			}
